@@ -11,6 +11,7 @@ from hypothesis import strategies as st
 import pendulum
 import pendulum._helpers as PY
 import pendulum._pendulum as RS
+import pendulum.helpers as HLP
 from vf import strategies as S
 from vf.core import Sub, req
 
@@ -111,6 +112,8 @@ class Dates(Sub):
 
 
 MONCAL = calendar.Calendar(calendar.MONDAY)   # the oracle must not depend on calendar.setfirstweekday() either
+MIN_TS = int((D.datetime(1, 1, 1) - EP).total_seconds())
+MAX_TS = int((D.datetime(9999, 12, 31, 23, 59, 59) - EP).total_seconds())
 LO = int((D.datetime(1, 1, 3) - EP).total_seconds())
 HI = int((D.datetime(9999, 12, 29) - EP).total_seconds())
 
@@ -118,7 +121,7 @@ HI = int((D.datetime(9999, 12, 29) - EP).total_seconds())
 def check_local_time(t, off, us):
     e = EP + D.timedelta(seconds=t + off)
     exp = (e.year, e.month, e.day, e.hour, e.minute, e.second, us)
-    for nm, m in (("python", PY), ("rust", RS)):
+    for nm, m in (("python", PY), ("rust", RS), ("pendulum.helpers (the dispatching module pendulum itself imports from)", HLP)):
         g = tuple(m.local_time(t, off, us))
         req(g == exp, f"{nm} local_time({t}, {off}, {us}) wrong", got=g, expected=exp)
 
@@ -166,10 +169,14 @@ class LocalTimeRandom(Sub):
     rule = "random seconds x offsets -86399..86399 x microseconds; non-trivial: negative timestamp or offset pushing across a day boundary"
 
     def strategy(self, ctx):
-        return st.fixed_dictionaries({"t": st.one_of(S.uni(LO, HI), S.uni(-10**10, 10**10)),
-                                      "off": st.one_of(st.sampled_from([0, -86399, 86399, 3600, -3600, 19800]), st.integers(-86399, 86399)),
-                                      "us": st.sampled_from([0, 1, 999999]) | st.integers(0, 999999),
-                                      "frac": st.sampled_from([0.5, 0.25, 0.75, 0.001, 0.999]) | st.floats(0, 0.9999, allow_nan=False)})
+        # the two ends of the representable range: the LOCAL broken-down time is inside years 1..9999 although the UTC instant may lie up to a day outside
+        edge = st.builds(lambda base, d, off: {"t": base + d - off, "off": off}, st.sampled_from([MIN_TS, MAX_TS]), st.integers(-3, 3) | st.integers(-90000, 90000),
+                         st.sampled_from([0, 3600, -3600, 86399, -86399, 19800]) | st.integers(-86399, 86399)).filter(lambda c: MIN_TS <= c["t"] + c["off"] <= MAX_TS)
+        rest = {"us": st.sampled_from([0, 1, 999999]) | st.integers(0, 999999), "frac": st.sampled_from([0.5, 0.25, 0.75, 0.001, 0.999]) | st.floats(0, 0.9999, allow_nan=False)}
+        plain = st.fixed_dictionaries(dict(rest, t=st.one_of(S.uni(LO, HI), S.uni(-10**10, 10**10)),
+                                           off=st.one_of(st.sampled_from([0, -86399, 86399, 3600, -3600, 19800]), st.integers(-86399, 86399))))
+        edges = st.builds(lambda e, r: dict(r, **e), edge, st.fixed_dictionaries(rest))
+        return st.one_of(plain, plain, plain, edges)
 
     def check(self, case, ctx):
         t, off, us = case["t"], case["off"], case["us"]
@@ -179,9 +186,11 @@ class LocalTimeRandom(Sub):
         req(g1 == g2 == tuple(PY.local_time(t, off, us)), "float timestamp handled differently from the equal int", got=[g1, g2])
         # a fractional timestamp (what from_format's X / x tokens pass) denotes the second it lies in: floor, also below zero
         tf = float(t) + case.get("frac", 0.5)
+        if not MIN_TS <= math.floor(tf) + off <= MAX_TS:
+            return True, "edge"
         e = EP + D.timedelta(seconds=math.floor(tf) + off)
         exp = (e.year, e.month, e.day, e.hour, e.minute, e.second, us)
-        for nm, m in (("python", PY), ("rust", RS)):
+        for nm, m in (("python", PY), ("rust", RS), ("pendulum.helpers", HLP)):
             g = tuple(m.local_time(tf, off, us))
             req(g == exp, f"{nm} local_time({tf!r}, {off}, {us}) is not the broken-down time of the second containing it", got=g, expected=exp)
         return t < 0 or (t // 86400 != (t + off) // 86400), "neg" if t < 0 else "pos"
